@@ -2,7 +2,7 @@ CONSTANTS
  Alphabet <- MCAlphabet
  RootKinds <- MCRoots
  MaxRoots = 3
- MaxNodes = 5
+ MaxNodes = 4
  MaxDepth = 5
  MinDump = 0
  Dump = TRUE
